@@ -389,7 +389,6 @@ func (s *Sim) oracleC01(op Op, evs []SIEvent, preds []PredCall) {
 			continue
 		}
 		news++
-		s.everBound++
 		m := s.shim.Allocs[e.Key]
 		if m == nil {
 			continue
